@@ -30,7 +30,8 @@ ASSUMPTIONS = [
 ]
 RULE = ("histories: random operation sequences (add, addN, remove with all wildcard shapes, set, +=, -=, + - * ^) over 2-3 "
         "subjects x 1-2 predicates x 2-3 objects (falsy literals always possible in every position), 1-4 Graph objects sharing one or two "
-        "stores (Memory/Memory, SimpleMemory/SimpleMemory, Memory/SimpleMemory); after every operation every graph is observed through "
+        "stores (Memory/Memory, SimpleMemory/SimpleMemory, Memory/SimpleMemory); the graph a binary operator returns joins the graphs in play "
+        "(it is mutated, used as operand and observed for the rest of the history; operands may be empty); after every operation every graph is observed through "
         "iteration, len and the 8 bound/unbound shapes of a probe triple (triples() and `in`). iterators: schedules of mutations, "
         "open-iterator and next() steps on one Memory store. A case is distinct by its full content; non-trivial when it contains a removal "
         "or a set operator (histories) resp. a mutation between two steps of an open iterator (iterators).")
@@ -147,9 +148,11 @@ class Histories(Suite):
         empty = None
         if not k0 and rng.random() < 0.4:
             # a graph nobody writes to: empty operands of the set operators
-            empty = [0, 6 - max(h[1] for h in handles if h[0] == 0) if False else next(c for c in [5, 4, 3, 2, 1] if all(h[1] != c for h in handles)), tok]
-            tok += 1
-            handles.append(empty)
+            free = [c for c in (5, 4, 3, 2, 1) if all(h[1] != c for h in handles)]
+            if free:
+                empty = [0, free[0], tok]
+                tok += 1
+                handles.append(empty)
         results = []
         nbin = 0
 
@@ -212,7 +215,6 @@ class Histories(Suite):
     # ------------------------------------------------------------ implementation
     def run_impl(self, case):
         w = World(case["k0"], case["k1"])
-        hs = [w.graph(h) for h in case["handles"]]
         obs = []
         for op, probe in case["ops"]:
             raised, res = False, []
@@ -243,7 +245,8 @@ class Histories(Suite):
                 raised = True
             pt = tuple(term(x) for x in probe)
             per = []
-            for g in hs:
+            for hd in case["handles"]:
+                g = w.graph(hd)      # looked up now: a result handle denotes whatever the operator returned
                 try:
                     it = sorted(tids(t) for t in g)
                     ln = len(g)
@@ -300,6 +303,14 @@ class Histories(Suite):
                 k = "rem_shape_" + "".join("b" if x is not None else "w" for x in op[2])
             elif k == "bin":
                 k = "bin_" + op[1]
+                i = case["ops"].index([op, probe])
+                for side, hd in (("left", op[2]), ("right", op[3])):
+                    try:
+                        idx = case["handles"].index(hd)
+                        if i == 0 or obs[i - 1][2][idx][1] == 0:
+                            f["bin_empty_" + side] = f.get("bin_empty_" + side, 0) + 1
+                    except (ValueError, IndexError):
+                        pass
             elif k in ("iadd", "isub"):
                 if op[1] == op[2]:
                     k += "_alias"
@@ -308,21 +319,42 @@ class Histories(Suite):
                 else:
                     k += "_other_store"
             f["op_" + k] = f.get("op_" + k, 0) + 1
+            if op[0] != "bin" and isinstance(op[1], list) and op[1][0] >= 2:
+                f["op_on_operator_result"] = f.get("op_on_operator_result", 0) + 1
             if any(term_id(term(x)) in (5, 6, 7, 14) for x in probe if x != 12):
                 f["falsy_probe"] = f.get("falsy_probe", 0) + 1
         return f
 
+    @staticmethod
+    def _max_store(op):
+        hs = [op[1]] if op[0] in ("add", "rem", "set", "addN") else [op[-2], op[-1]]
+        if op[0] == "addN":
+            hs = hs + [h for _, h in op[2]]
+        if op[0] in ("iadd", "isub"):
+            hs = [op[1], op[2]]
+        return max(h[0] for h in hs)
+
     def shrink(self, case):
         ops = case["ops"]
+        for i in range(len(ops) - 1, 0, -1):
+            yield dict(case, ops=ops[:i])                      # prefixes are always well-scoped
+        nbins = sum(1 for o, _ in ops if o[0] == "bin")
         for i in range(len(ops)):
+            if ops[i][0][0] == "bin":
+                # only the last operator may go, and only if nothing uses its result (store numbers are positional)
+                k = sum(1 for o, _ in ops[:i + 1] if o[0] == "bin")
+                if k != nbins or any(self._max_store(o) >= 1 + k for o, _ in ops[i + 1:]):
+                    continue
             yield dict(case, ops=ops[:i] + ops[i + 1:])
         for i in range(len(case["handles"])):
             if len(case["handles"]) > 1:
                 yield dict(case, handles=case["handles"][:i] + case["handles"][i + 1:])
 
     def sweep(self):
-        """all histories of length <= 3 (and those of length 4 that start with an add) over 2 triples x 2 graphs of one Memory store, incl. -=, +=, set and wildcard removes"""
+        """all histories of length <= 3 (and those of length 4 that start with an add) over 2 triples x 2 graphs of one
+        Memory store, incl. -=, +=, set, wildcard removes, and `g1 - g2`, `g2 * g1` whose result is then mutated"""
         g1, g2 = [0, 1, 1], [0, 2, 2]
+        r = result_handle(2)
         ts = [[1, 3, 5], [1, 3, 6]]
         alphabet = []
         for g in (g1, g2):
@@ -334,11 +366,25 @@ class Histories(Suite):
         alphabet.append(["isub", g1, g2])
         alphabet.append(["iadd", g2, g1])
         alphabet.append(["set", g2, [1, 3, 6]])
+        alphabet.append(["bin", "sub", g1, g2])
+        alphabet.append(["bin", "mul", g2, g1])
+        alphabet.append(["add", r, [1, 3, 6]])
+        alphabet.append(["rem", r, [1, None, None]])
         for n in (1, 2, 3, 4):
             for seq in itertools.product(alphabet, repeat=n):
                 if n == 4 and seq[0][0] != "add":
                     continue
-                yield {"k0": False, "k1": False, "handles": [g1, g2],
+                bins = 0
+                ok = True
+                for o in seq:
+                    if o[0] == "bin":
+                        bins += 1
+                    elif o[1][0] >= 2 and bins != 1:
+                        ok = False      # the result handle means store 2: exactly one operator so far
+                        break
+                if not ok or bins > 1:
+                    continue
+                yield {"k0": False, "k1": False, "handles": [g1, g2, r],
                        "ops": [[list(o), [1, 3, 5]] for o in seq]}
 
 
